@@ -515,6 +515,9 @@ def run(check, an: Analysis):
                            'whether a get can be served depends on the request itself (%s) '
                            'but the queue is served with takewhile: the first unservable '
                            'request blocks all later ones' % sorted(decides))
+    # the kernel rules every suspending operation rests on (shared; see _scope)
+    from . import _scope as _kernel
+    _kernel.check_kernel_core(check, an)
     check.stats.update(an.stats())
 
 
